@@ -4465,6 +4465,10 @@ Case_BaseLdurStur:
         if (!match_signature(o0, o1, inst_flags))
           goto InvalidInstruction;
 
+        // The size comes from the destination of a narrowing shift, so the source has to be checked against it.
+        if ((inst_flags & InstDB::kInstFlagNarrow) && !check_wide_scalar(o0, o1))
+          goto InvalidInstruction;
+
         if (o2.as<Imm>().value_as<uint64_t>() > 63)
           goto InvalidImmediate;
 
